@@ -417,6 +417,7 @@ inductive Op where
   | srange (d i j : Nat) (w : String)         -- v[d][i..j] = "w"        (unlink_string_svalue + copy_lvalue_range)
   | clones (n : Nat) | unclone (n : Nat)   -- n further clones of /c06/uobj (only their program reference is modelled)
   | unload (w : Nat)                        -- destruct + clean up the blueprint object of /c06/uobj (0) or /c06/base (1)
+  | reclaim                                 -- reclaim_objects(): references to destructed objects found in object variables are released
   | newobjr (o L : Nat)                     -- clone of /c06/rc<L>: inherits ra<L> (layNa L variables) and rb<L> (layNb L variables)
   | replace (o w : Nat)                     -- replace_program() by the first (w = 0) / second (w = 1) inherited program + replace_programs()
   deriving Repr
@@ -902,6 +903,14 @@ def compile (s : St) (op : Op) : Option (List Mi) :=
     let sl := anonSlots s
     if sl.length < n || !s.dlist.isEmpty then none
     else some ((sl.take n).flatMap (fun (p, i) => [Mi.take (.item p i), Mi.free]))
+  | .reclaim =>
+    -- lpc mode: the only references to destructed objects reachable from object variables are the handles (variable
+    -- `obs` of the interpreter object) and a structure the operation builds around them (array, mapping key / value,
+    -- bound argument of a function pointer) and drops afterwards: net effect = the handles of destructed objects go
+    some ((List.range nObjs).flatMap (fun o =>
+      match slotCell s (rHandle o) with
+      | some (_, cell) => if cell.kind == .obj && cell.destructed then [Mi.take (.root (rHandle o)), Mi.free] else []
+      | none => []))
   | .newobjr o L =>
     if o < nObjs && L < nLayouts && isNumRoot s (rHandle o) && isNumRoot s (rExist o) then
       -- the three programs of the layout become visible (tracked) cells the first time the layout is used: ra, rb
